@@ -164,6 +164,24 @@ def check_gtcount(prog, rep, K):
         if isinstance(n, ast.Assign) and len(n.targets) == 1 and isinstance(n.targets[0], ast.Name):
             defs.setdefault(n.targets[0].id, []).append(n.value)
     loops = [s for s in body_nodoc(f.node) if isinstance(s, ast.For)]
+    if not loops:
+        # comprehension form: out = numpy.array([<row i> for i in range(n)], ...) is the loop `for i in range(n): out[i] = <row i>` over an n-row allocation
+        for s in body_nodoc(f.node):
+            v = s.value if isinstance(s, ast.Assign) and len(s.targets) == 1 and isinstance(s.targets[0], ast.Name) else None
+            if (isinstance(v, ast.Call) and prog.dotted(f.module, v.func) in ("numpy.array", "numpy.asarray", "numpy.stack", "numpy.vstack") and v.args
+                    and isinstance(v.args[0], ast.ListComp) and len(v.args[0].generators) == 1 and not v.args[0].generators[0].ifs
+                    and isinstance(v.args[0].generators[0].target, ast.Name)):
+                g_ = v.args[0].generators[0]
+                o_ = s.targets[0].id
+                lp_ = ast.For(target=g_.target, iter=g_.iter, orelse=[], body=[ast.Assign(targets=[ast.Subscript(value=ast.Name(id=o_, ctx=ast.Load()), slice=g_.target, ctx=ast.Store())],
+                                                                                        value=v.args[0].elt)])
+                ast.copy_location(lp_, s)
+                ast.copy_location(lp_.body[0], s)
+                ast.fix_missing_locations(lp_)
+                loops = [lp_]
+                if isinstance(g_.iter, ast.Call) and g_.iter.args:
+                    defs[o_] = [ast.parse("numpy.empty((%s, self.nvrnt))" % dump(g_.iter.args[0]), mode="eval").body]
+                break
     if len(loops) != 1:
         rep.unrec("R3-classes", construct, "expected one loop over genotype classes")
         return
